@@ -174,6 +174,15 @@ func ListSolarFromBaZiBySectAndBaseYear(yearGanZhi string, monthGanZhi string, d
 					// 从节令推移天数
 					solarTime = solarTime.Next(d, false)
 				}
+				// 验证一下
+				match := func(solar *Solar) bool {
+					lunar := solar.GetLunar()
+					dgz := lunar.GetDayInGanZhiExact()
+					if 2 == sect {
+						dgz = lunar.GetDayInGanZhiExact2()
+					}
+					return strings.Compare(lunar.GetYearInGanZhiExact(), yearGanZhi) == 0 && strings.Compare(lunar.GetMonthInGanZhiExact(), monthGanZhi) == 0 && strings.Compare(dgz, dayGanZhi) == 0 && strings.Compare(lunar.GetTimeInGanZhi(), timeGanZhi) == 0
+				}
 				for _, hour := range hours {
 					mi := 0
 					s := 0
@@ -182,14 +191,18 @@ func ListSolarFromBaZiBySectAndBaseYear(yearGanZhi string, monthGanZhi string, d
 						mi = solarTime.GetMinute()
 						s = solarTime.GetSecond()
 					}
-					// 验证一下
 					solar := NewSolar(solarTime.GetYear(), solarTime.GetMonth(), solarTime.GetDay(), hour, mi, s)
-					lunar := solar.GetLunar()
-					dgz := lunar.GetDayInGanZhiExact()
-					if 2 == sect {
-						dgz = lunar.GetDayInGanZhiExact2()
+					if !match(solar) {
+						// 时辰的后一个小时已经过了下一个节令（节令落在时辰的前一个小时内）时，改取时辰的前一个小时
+						if hour > 0 && hour%2 == 0 {
+							solar = NewSolar(solarTime.GetYear(), solarTime.GetMonth(), solarTime.GetDay(), hour-1, 0, 0)
+						} else if hour == 0 && 1 == sect {
+							// 晚子时日柱算明天，早子时的前一个小时是前一天的23点
+							prev := solarTime.NextDay(-1)
+							solar = NewSolar(prev.GetYear(), prev.GetMonth(), prev.GetDay(), 23, 0, 0)
+						}
 					}
-					if strings.Compare(lunar.GetYearInGanZhiExact(), yearGanZhi) == 0 && strings.Compare(lunar.GetMonthInGanZhiExact(), monthGanZhi) == 0 && strings.Compare(dgz, dayGanZhi) == 0 && strings.Compare(lunar.GetTimeInGanZhi(), timeGanZhi) == 0 {
+					if match(solar) {
 						l.PushBack(solar)
 					}
 				}
